@@ -127,9 +127,13 @@ class _G1:
                     if i < len(args):
                         pmap[prm["n"]] = {o for o in (ctx.objs(args[i]) | ctx.base_objs(args[i])) if o in (INPUT, THIS)}
                 sub = self.analyse(callee, pmap)
-                if not sub["own"] and not sub["inherits"]:
+                if not sub["own"]:
                     if sub["guards"]:
                         guards.append("in %s: %s" % (callee.short, sub["guards"][0]))
+                    # the helper is clean by itself; what it delegates to is reported at that solve
+                    for t in sub["inherits"]:
+                        if t not in inherits:
+                            inherits.append(t)
                     continue
                 why = "; ".join("%s:%d %s" % (self.prog.rel(callee.file), l, t) for (l, t, w) in sub["own"][:3])
                 own.append((n.line, n.text(), "hands the input and plan state to %s, which indexes them without a live length "
@@ -230,6 +234,8 @@ def rule_G2(prog, fixture=False, only_compound=False):
             and f.params and "base_array<" in f.params[0].get("t", "")
         if only_compound and not is_compound:
             continue
+        need_throw_here = bool(is_compound) or bool(f.cls and f.cls.startswith("dsplib::base_array<") and _short_name(f.qn) in
+                                                    ("operator+", "operator-", "operator*", "operator/") and f.params and "base_array<" in f.params[0].get("t", ""))
         ctx = None
         sites = []
         n_funcs += 1
@@ -269,7 +275,7 @@ def rule_G2(prog, fixture=False, only_compound=False):
             for fo in sorted(foreign):
                 g = None
                 for b in bobjs:
-                    g = ctx.relating_guard_at(node, b, fo, need_throw=bool(is_compound))
+                    g = ctx.relating_guard_at(node, b, fo, need_throw=need_throw_here)
                     if g is not None:
                         break
                 if g is None:
@@ -306,7 +312,10 @@ def rule_G2(prog, fixture=False, only_compound=False):
         where = "%s:%d" % (prog.rel(f.file), f.line)
         bad = [s for s in sites if not s[2]]
         props = ["C05"]
-        if is_compound:
+        is_array_arith = bool(f.cls and f.cls.startswith("dsplib::base_array<") and f.params and "base_array<" in f.params[0].get("t", "")
+                              and _short_name(f.qn) in ("operator+", "operator-", "operator*", "operator/", "operator+=", "operator-=",
+                                                         "operator*=", "operator/="))
+        if is_compound or is_array_arith:
             props.append("C03")
         if f.cls and (f.cls.startswith("dsplib::LmsFilter<") or f.cls.startswith("dsplib::RlsFilter<")):
             props.append("C12")
